@@ -6,7 +6,7 @@ TRUSTED = ["zone tables as in C11; the local weekday and minute given to the Spe
 ASSUMPTIONS = ["start times are HH:MM strings; day sets are sets of Days"]
 RULE = ("for each zone: a base week (7 consecutive local days, one of them within a day of a DST transition when the zone has one) x "
         "all 128 day sets (quick: 40 sampled + the 8 canonical ones) x local times {start-1 min, start, start+1 min, 00:00, 00:01, "
-        "12:00, 23:59} x several start times, so that local and UTC weekday differ for part of the grid; the same grid with one "
+        "12:00, 23:59} x several start times (some spelled without leading zeros), plus the last day of several months and the day after, so that local and UTC weekday differ for part of the grid; the same grid with one "
         "set object consulted at two instants; non-trivial = distinct cases "
         "with a non-empty day set")
 REQUIREMENT = ("text = 'Due today' if today is selected and the start is still ahead, 'Due tomorrow' if the earliest future occurrence "
@@ -25,15 +25,20 @@ def gen(rnd, zone, tier):
             for dt_ in (D.datetime.fromtimestamp(t - 1, tz), D.datetime.fromtimestamp(t, tz)):
                 for k in (-90, -30, 0, 30): starts.append((dt_.hour * 60 + dt_.minute + k) % 1440)
         starts = sorted(set(starts))
-    for dayk in range(7):
-        day = base + D.timedelta(days=dayk)
+    days_ = [base + D.timedelta(days=dayk) for dayk in range(7)]
+    # calendar edges: the last day of a month (28 / 29 / 30 / 31 days) and of a year, with the day after
+    for (y, m) in rnd.sample([(y, m) for y in (2023, 2024, 2027, 2028) for m in range(1, 13)], 3 if tier == "quick" else 16) + [(2024, 2), (2027, 12)]:
+        first_next = D.date(y + (m == 12), m % 12 + 1, 1)
+        days_ += [first_next - D.timedelta(days=1), first_next]
+    for day in days_:
         for s in starts:
             for cur, fold in sorted({((s + k) % 1440, f) for k in (-1, 0, 1, -20, 20, -40, 40, -70, 70) for f in (0, 1)} | {(0, 0), (1, 0), (720, 0), (1439, 0)}):
                 dt = D.datetime(day.year, day.month, day.day, cur // 60, cur % 60, 20, tzinfo=tz, fold=fold)
                 if fold and dt.utcoffset() == dt.replace(fold=0).utcoffset(): continue       # not an ambiguous wall-clock time
                 now = int(dt.timestamp())
                 for m in (sets if tier == "thorough" else rnd.sample(sets, 6)):
-                    cases.append({"zone": zone, "now": now, "start": "%02d:%02d" % divmod(s, 60), "days": [d for d in range(7) if m >> d & 1]})
+                    spell = rnd.choice(["%02d:%02d"] * 8 + ["%d:%02d", "%d:%d"])           # %H:%M also reads hours and minutes without a leading zero
+                    cases.append({"zone": zone, "now": now, "start": spell % divmod(s, 60), "days": [d for d in range(7) if m >> d & 1]})
     return cases
 
 
@@ -61,7 +66,7 @@ def run_zone(out, stream, zone, cases):
     res = world.zone_job(zone, "next_run_reuse" if reuse else "next_run", [{k: c[k] for k in c if k != "zone"} for c in cases])
     io = [("ok " + r["text"]) if r["text"] != "raised" else "raised" for r in res]
     mo = lib.run_model([lib.req("next_run", zd, tr, c["now"], c["start"], c["days"]) for c in cases])
-    ex = lib.run_model([lib.req("next_run_spec", r["facts_now"][1], r["facts_now"][2], int(c["start"][:2]) * 60 + int(c["start"][3:]), c["start"], c["days"])
+    ex = lib.run_model([lib.req("next_run_spec", r["facts_now"][1], r["facts_now"][2], int(c["start"].split(":")[0]) * 60 + int(c["start"].split(":")[1]), c["start"], c["days"])
                         for c, r in zip(cases, res)])
     lib.differential(out, stream, cases, io, mo, ex, describe, nontrivial=lambda c: len(c["days"]) > 0, sample=lambda c: c,
                      classify=lambda c, i: zone + "/" + " ".join(i.split(" ")[1:3]))
